@@ -77,6 +77,8 @@ STATEFUL = {
              "|{{ 'today' | date: '%H:%M' }}|{{ 'now' | datetime }}|{{ 'now' | datetime: format: 'short' }}",
              lambda now: "|".join([_fmt_dt(now, "%Y-%m-%d %H:%M:%S"), _fmt_dt(now, "%Y-%m-%d"), str(int(now)),
                                    _fmt_dt(now, "%H:%M"), _babel(now, "medium"), _babel(now, "short")])),
+    "gvprobe": ("{{ gv }}/{{ shared.n }}/{{ shared.list | join: ',' }}", lambda now: "//"),
+    "nested": ("{% assign k = 'a' %}{{ h[k] }}{{ h['b'] }}{% for i in (1..2) %}{{ nested[i][0] }}{% endfor %}", lambda now: "1two3"),
     "nowtwice": ("{{ 'now' | date: '%s' }}-{{ 'now' | date: '%s' }}-{{ now | date: '%s' }}",
                  lambda now: f"{int(now)}-{int(now)}-{int(now)}"),
 }
@@ -94,10 +96,16 @@ PROBES = (
     "{% increment z %}{% increment z %}",
     "{{ '<b>' }}|{{ nosuch.thing }}",
     "{{ 3 | plus: 4 }}{% assign q = 1 %}  x",
+    "{% translate %}Hello{% endtranslate %}|{% translate count: 2 %}one{% plural %}many{% endtranslate %}",
+    "{{ 'Hello' | gettext }}|{{ 'one' | ngettext: 'many', 2 }}|{{ 1.5 | decimal }}|{{ 1 | money }}",
+    "{% macro m a %}[{{ a }}]{% endmacro %}{% call m 1 %}{% cycle 'a', 'b' %}{% cycle 'a', 'b' %}",
+    "{{ 'x' | date: '%Y' }}|{{ nothing | default: 'd' }}|{{ '<i>' | escape }}",
 )
 
 CONFIG_KINDS = ("add_filter", "replace_filter", "del_filter", "add_tag", "globals_set", "globals_replace",
-                "translation_filters", "loop_limit", "undefined", "trim", "suppress_blank", "output_limit")
+                "translation_filters", "translation_filters_var", "translation_filters_default",
+                "loop_limit", "undefined", "trim", "suppress_blank", "output_limit", "replace_tag",
+                "context_depth", "namespace_limit", "auto_escape_on", "replace_json")
 
 
 class Violation(Exception):
@@ -148,6 +156,38 @@ def apply_config(env, op: dict) -> None:
         env.globals = {"gv": op.get("v", "R")}
     elif k == "translation_filters":
         register_translation_filters(env, replace=True, message_interpolation=False)
+    elif k == "translation_filters_var":
+        register_translation_filters(env, replace=True, translations_var="i18n")
+    elif k == "translation_filters_default":
+        class French:
+            def gettext(self, m):
+                return "FR(" + m + ")"
+
+            def ngettext(self, s1, p, n):
+                return "FR1(" + s1 + ")" if n == 1 else "FRN(" + p + ")"
+
+            def pgettext(self, c, m):
+                return "FR[" + c + "](" + m + ")"
+
+            def npgettext(self, c, s1, p, n):
+                return "FR1[" + c + "](" + s1 + ")" if n == 1 else "FRN[" + c + "](" + p + ")"
+
+        register_translation_filters(env, replace=True, translations_var="tr2", default_translations=French(),
+                                     autoescape_message=True)
+    elif k == "replace_tag":
+        from liquid2.builtin import IncrementTag
+
+        env.tags["decrement"] = IncrementTag(env)
+    elif k == "context_depth":
+        env.context_depth_limit = 3
+    elif k == "namespace_limit":
+        env.local_namespace_limit = 100
+    elif k == "auto_escape_on":
+        env.auto_escape = True
+    elif k == "replace_json":
+        from liquid2.builtin import JSON
+
+        env.filters["json"] = JSON(default=lambda o: "<obj>")
     elif k == "loop_limit":
         env.loop_iteration_limit = 3
     elif k == "output_limit":
@@ -290,7 +330,7 @@ class World:
             d, ctl = self.data(step["data"], fault, "d")
             if step.get("mode", "s") == "s":
                 try:
-                    return ("ok", t.render(**d)), ctl
+                    return ("ok", common.norm(t.render(**d))), ctl
                 except Inconclusive:
                     raise
                 except BaseException as exc:  # noqa: BLE001
@@ -319,7 +359,7 @@ class World:
             loop.on_decision = on_dec
         try:
             try:
-                return ("ok", loop.run_until_complete(coro))
+                return ("ok", common.norm(loop.run_until_complete(coro)))
             except Inconclusive:
                 raise
             except BaseException as exc:  # noqa: BLE001
@@ -382,7 +422,7 @@ class World:
         for src in PROBES:
             try:
                 t = env.from_string(src)
-                out.append(("ok", t.render(translations=worlds.Catalog())))
+                out.append(("ok", common.norm(t.render(translations=worlds.Catalog()))))
             except Inconclusive:
                 raise
             except BaseException as exc:  # noqa: BLE001
@@ -462,7 +502,7 @@ def do_step(w: World, step: dict) -> None:
         ei = step["env"]
         if w.plan["envs"][ei].get("default_global"):
             return
-        if w.plan["envs"][ei]["loader"].startswith("c") and step["what"] in ("del_filter", "trim"):
+        if w.plan["envs"][ei]["loader"].startswith("c") and step["what"] in ("del_filter", "trim", "replace_tag"):
             # parse-time configuration: a caching loader legitimately keeps templates parsed
             # under the earlier configuration, a fresh one re-parses them (not a C09 matter)
             w.count("config_skipped_parse_time_on_caching_loader")
@@ -493,7 +533,7 @@ def do_step(w: World, step: dict) -> None:
         d, _ = w.data(step["data"], None, "d")
         try:
             if step.get("mode", "s") == "s":
-                got = ("ok", liquid2.render(step["src"], **d))
+                got = ("ok", common.norm(liquid2.render(step["src"], **d)))
             else:
                 async def co():
                     return await liquid2.render_async(step["src"], **d)
@@ -504,7 +544,7 @@ def do_step(w: World, step: dict) -> None:
             got = canon_exc(exc)
         d2, _ = w.data(step["data"], None, "d")
         try:
-            exp = ("ok", liquid2.Environment().from_string(step["src"]).render(**d2))
+            exp = ("ok", common.norm(liquid2.Environment().from_string(step["src"]).render(**d2)))
         except Inconclusive:
             raise
         except BaseException as exc:  # noqa: BLE001
@@ -587,7 +627,7 @@ def do_par(w: World, step: dict) -> None:
             return st
         d, ctl = w.data(tk["data"], None, f"T{i}")
         try:
-            return ("ok", await st[1].render_async(**d))
+            return ("ok", common.norm(await st[1].render_async(**d)))
         except Inconclusive:
             raise
         except asyncio.CancelledError:
@@ -675,7 +715,7 @@ def gen_plan(seed: int, tier: str) -> dict:
         gen_parts.update(parts)
         gen_progs.append(src)
     for i in range(n_env):
-        if rng.random() < 0.15 and not any(e.get("default_global") for e in envs):
+        if rng.random() < 0.25 and not any(e.get("default_global") for e in envs):
             envs.append({"default_global": True})
             continue
         plain = rng.random() < 0.55
